@@ -1,6 +1,8 @@
 """C14 — frequency estimates never under-count, saturate safely and age by halving (structural premises).  (DESIGN §4 C14)"""
 from core import (strip_site, fmt, enum_paths, path_atoms, path_calls, mentions, subexprs, is_call_to, bool_branches,
-                  closure_captures, const_of)
+                  closure_captures, const_of, le_truth)
+
+from iters import elem_loops, ELEM
 
 LEVEL = "other"
 EXPLANATION = ("Premises of two bit-vector lemmas and the count-min structure, checked on MIR. Lemma A: if "
@@ -84,14 +86,6 @@ def run(ctx):
     ROWS = rows_c[0] if rows_c else None
     ctx.check(ROWS is not None and ROWS >= 1, "R14.3", "rows-const", "the number of rows is a positive constant", detail=str(rows_c))
     # ---- R14.4 halving --------------------------------------------------------------------------------
-    halves = []
-    for n, c in F.fns.items():
-        if c.kind != "Closure":
-            continue
-        st = c.stores()
-        if len(st) == 1 and st[0][2] == ("param", 2) and eq_mod_comm(st[0][3], ("binop", "BitAnd", ("binop", "Shr", ("param", 2), ("const", 1, "i32")), ("const", 0x77, "u8"))):
-            halves.append(c)
-    ctx.floor("R14.4", "halving closures ((b >> 1) & 0x77)", len(halves), 1)
     # every halving mask used on the row's storage keeps the low three bits of EVERY nibble of its width (a wider,
     # word-at-a-time halving is fine as long as its mask is 0x77 replicated over the whole word)
     NIBBLES = {"u8": 2, "u16": 4, "u32": 8, "u64": 16, "usize": 16, "u128": 32}
@@ -119,100 +113,160 @@ def run(ctx):
                           "a halving `(x >> 1) & M` on the counter storage uses M = 0x7 in every nibble of its width, so no counter inherits its left neighbour's low bit",
                           g.where(b, i), "mask=%s" % (fmt(y),))
     ctx.floor("R14.4", "halving mask expressions", nmask, 1)
+    # ---- halving loops: a Row method with an element loop over every byte of the row whose body rewrites that byte with
+    #      (b >> 1) & M  (closure, fn item or `for` loop alike); the word-at-a-time form (whole chunks + tail bytes) too
+    def is_halving(v, x):
+        if not (v[0] == "binop" and v[1] == "BitAnd"):
+            return False
+        for sh, m in ((v[2], v[3]), (v[3], v[2])):
+            if sh[0] == "binop" and sh[1] == "Shr" and strip_site(sh[2]) == strip_site(x) and const_of(sh[3]) == 1 and m[0] == "const":
+                return True
+        return False
     half_fns = set()
-    for c in halves:
-        cc = closure_captures(F, c.name)
-        p = cc[0] if cc else None
-        ok = False
-        form = ""
-        if p is not None:
-            for b, t in p.calls():
-                if t["callee"].endswith("Iterator::for_each"):
-                    it = p.op_origin(t["args"][0])
-                    recv = it[2][0] if is_call_to(it, "iter_mut") and it[2] else None
-                    while recv is not None and recv[0] == "call" and recv[1].split("::")[-1] in ("deref_mut", "as_mut_slice", "as_mut") and recv[2]:
-                        recv = recv[2][0]
-                    if recv is not None and strip_site(recv) == base:
-                        ok, form = True, "every byte"
-                    elif recv is not None and is_call_to(recv, "into_remainder") and recv[2]:
-                        # word-at-a-time form: the bytes the closure sees are only the tail; the whole chunks must be
-                        # rewritten in place from a halving of their own content
-                        ch = recv[2][0]
-                        whole = [1 for b2, t2 in p.calls() if t2["callee"].endswith("copy_from_slice")
-                                 and mentions(p.op_origin(t2["args"][1]), lambda s: s[0] == "binop" and s[1] == "BitAnd" and any(z[0] == "binop" and z[1] == "Shr" for z in s[2:4]))]
-                        if is_call_to(ch, "chunks_exact_mut") and ch[2] and mentions(ch[2][0], lambda s: s == base) and whole:
-                            ok, form = True, "whole words + tail bytes"
+    n_half = 0
+    for f in rfns:
+        for L in elem_loops(F, f):
+            k = L.over_all(lambda c_: strip_site(c_) == base)
+            tail = L.over_all(lambda c_: is_call_to(c_, "into_remainder"))
+            kk = k if k is not None else tail
+            if kk is None or not L.bodies:
+                continue
+            if not all(len(p.stores) == 1 and p.stores[0][0] == ELEM(kk) and is_halving(p.stores[0][1], ELEM(kk)) for p in L.bodies):
+                continue
+            n_half += 1
+            ok, form = False, ""
+            if k is not None:
+                ok, form = True, "every byte"
+            else:
+                ch = L.sources[tail][1][2][0]
+                whole = [1 for b2, t2 in f.calls() if t2["callee"].endswith("copy_from_slice")
+                         and mentions(f.op_origin(t2["args"][1]), lambda s_: s_[0] == "binop" and s_[1] == "BitAnd" and any(z[0] == "binop" and z[1] == "Shr" for z in s_[2:4]))]
+                if is_call_to(ch, "chunks_exact_mut") and ch[2] and mentions(ch[2][0], lambda s_: s_ == base) and whole:
+                    ok, form = True, "whole words + tail bytes"
             if ok:
-                half_fns.add(p.name)
-        ctx.check(ok, "R14.4", "%s|halve-every-byte" % c.name, "halving is applied to every byte of the row (iter_mut().for_each over the row itself%s)" % (": " + form if form else ""), c.where())
+                half_fns.add(f.name)
+            ctx.check(ok, "R14.4", "%s|halve-every-byte" % f.name, "halving is applied to every byte of the row (an element loop over the row itself%s)" % (": " + form if form else ""), L.where())
+    ctx.floor("R14.4", "halving loops ((b >> 1) & M over every byte of a row)", n_half, 1)
+
+    # the sketch: rows and seeds are arrays of ROWS elements of one struct
+    sk = None
+    for name, adt in F.adts.items():
+        if adt["kind"] != "Struct":
+            continue
+        fs = adt["variants"][0]["fields"]
+        mf = [x for x in fs if x["ty"].startswith("[" + row + ";")]
+        sf = [x for x in fs if x["ty"].startswith("[u64;")]
+        if len(mf) == 1 and len(sf) == 1:
+            sk = (name, mf[0]["name"], sf[0]["name"], mf[0]["ty"].rstrip("]").split(";")[-1].strip(), sf[0]["ty"].rstrip("]").split(";")[-1].strip())
+    ctx.check(sk is not None and sk[3] == sk[4] and (sk[3] == str(ROWS) or not sk[3].isdigit()), "R14.3", "rows-and-seeds-arrays", "the sketch keeps as many seeds as rows (ROWS of each)", detail=str(sk))
+    if sk is None:
+        return
+    MAT, SEEDS = ("field", ("param", 1), sk[1]), ("field", ("param", 1), sk[2])
+
+    def tokens(L):
+        """(row element, seed element, covers every row) of a loop over the sketch, in body terms"""
+        km, ks = L.over_all(lambda c_: strip_site(c_) == MAT), L.over_all(lambda c_: strip_site(c_) == SEEDS)
+        if km is not None:
+            return ELEM(km), (ELEM(ks) if ks is not None else None), True
+        for k, src in enumerate(L.sources):
+            if src[0] == "range":
+                full = src[1] == ("const", 0, "usize") and const_of(src[2]) == ROWS
+                return ("index", MAT, ELEM(k)), ("index", SEEDS, ELEM(k)), full
+        return None, None, False
+
     resets = []
-    for n, c in F.fns.items():
-        if c.kind == "Closure" and any(t.get("rpath") in half_fns for b, t in c.calls()):
-            cc = closure_captures(F, c.name)
-            p = cc[0] if cc else None
-            ok = False
-            if p is not None:
-                for b, t in p.calls():
-                    if t["callee"].endswith("Iterator::for_each"):
-                        rng = p.op_origin(t["args"][0])
-                        ok = rng[0] == "agg" and rng[1].endswith("Range") and dict(rng[3]).get("start") == ("const", 0, "usize") and dict(rng[3]).get("end") == ("const", ROWS, "usize")
-                recv = [c.op_origin(t["args"][0]) for b, t in c.calls() if t.get("rpath") in half_fns][0]
-                ok = ok and recv[0] == "index" and recv[2] == ("param", 2)
-            resets.append(p.name if p else n)
-            ctx.check(ok, "R14.4", "%s|halve-all-rows" % n, "ageing halves every row: for each index in 0..ROWS the row at that index", c.where())
+    sk_fns = [f for n, f in F.fns.items() if f.kind != "Closure" and (f.rec.get("self_ty") or "").split("<")[0] == sk[0]]
+    for f in sk_fns:
+        n = f.name
+        for L in elem_loops(F, f, stop=lambda x: x in half_fns):
+            calls = [p.calls(half_fns) for p in (L.bodies or [])]
+            if not any(calls):
+                continue
+            rowt, _, full = tokens(L)
+            ok = rowt is not None and full and all(len(cs) == 1 and strip_site(cs[0].args[0]) == rowt for cs in calls)
+            resets.append(f.name)
+            ctx.check(ok, "R14.4", "%s|halve-all-rows" % n, "ageing halves every row: once per element of the row array (or per index in 0..ROWS)", L.where(),
+                      "sources=%s" % [fmt(s_[1])[:40] for s_ in L.sources])
     ctx.floor("R14.4", "sketch reset functions", len(resets), 1)
     # ---- R14.5 count-min ------------------------------------------------------------------------------
-    def visit_closure(target_fn):
-        out = []
-        for n, c in F.fns.items():
-            if c.kind == "Closure":
-                for b, t in c.calls():
-                    if t.get("rpath") == target_fn.name:
-                        out.append((c, b, t))
-        return out
-    inc_sites = visit_closure(inc_fn)
-    get_sites = visit_closure(get_fn)
-    ctx.check(len(inc_sites) == 1 and len(get_sites) == 1, "R14.5", "one-visitor-each", "one increment visitor and one estimate visitor over the rows")
-    if len(inc_sites) == 1 and len(get_sites) == 1:
-        (ci, bi, ti), (cg, bg, tg) = inc_sites[0], get_sites[0]
+    inc_loops, get_loops = [], []
+    for f in sk_fns:
+        for L in elem_loops(F, f, stop=lambda x: x in (inc_fn.name, get_fn.name)):
+            if any(p.calls({inc_fn.name}) for p in (L.bodies or [])):
+                inc_loops.append(L)
+            if any(p.calls({get_fn.name}) for p in (L.bodies or [])):
+                get_loops.append(L)
+    ctx.check(len(inc_loops) == 1 and len(get_loops) == 1, "R14.5", "one-visitor-each", "one increment visitor and one estimate visitor over the rows",
+              detail="%s %s" % (inc_loops, get_loops))
+    inc_sites, get_sites = inc_loops, get_loops
+    if len(inc_loops) == 1 and len(get_loops) == 1:
+        Li, Lg = inc_loops[0], get_loops[0]
 
-        def pos_expr(c, t):
-            return canon(c.op_origin(t["args"][1])), canon(c.op_origin(t["args"][0]))
-        pi, ri = pos_expr(ci, ti)
-        pg, rg = pos_expr(cg, tg)
-        slf = ("field", ("env",), "*self")
-        want_pos = canon(("binop", "Rem", ("binop", "BitXor", ("field", ("env",), "key_hash"), ("index", ("field", slf, "seeds"), ("param", 2))), ("field", slf, "total_counters")))
-        want_row = canon(("index", ("field", slf, "matrix"), ("param", 2)))
-        ctx.check(pi == want_pos and pg == want_pos and ri == want_row and rg == want_row, "R14.5", "same-cells",
-                  "increment and estimate address the same cell in each row: row = matrix[i], position = (hash ^ seeds[i]) % total_counters", ci.where(bi),
-                  "inc %s / est %s" % (fmt(pi), fmt(pg)))
-        for c, label in ((ci, "increment"), (cg, "estimate")):
-            cc = closure_captures(F, c.name)
-            p = cc[0] if cc else None
-            ok = False
-            if p is not None:
-                for b, t in p.calls():
-                    if t["callee"].endswith("Iterator::for_each"):
-                        rng = p.op_origin(t["args"][0])
-                        ok = rng[0] == "agg" and rng[1].endswith("Range") and dict(rng[3]).get("start") == ("const", 0, "usize") and dict(rng[3]).get("end") == ("const", ROWS, "usize")
-                kh = cc[1].get("key_hash")
-                ok = ok and kh == ("param", 2)
-            ctx.check(ok, "R14.5", "%s|all-rows|%s" % (p.name if p else c.name, label), "%s visits every row 0..ROWS with the key hash it was given" % label, c.where())
+        def cells(L, target):
+            rowt, seedt, full = tokens(L)
+            out = []
+            for p in L.bodies:
+                cs = p.calls({target.name})
+                if len(cs) != 1:
+                    return None, full
+                row_a, pos_a = strip_site(cs[0].args[0]), canon(cs[0].args[1])
+                modulus = [x for x in subexprs(cs[0].args[1]) if x[0] == "field" and x[1] == ("param", 1)]
+                want = canon(("binop", "Rem", ("binop", "BitXor", ("param", 2), seedt), modulus[-1])) if (modulus and seedt is not None) else None
+                out.append((row_a == rowt, pos_a == want, fmt(modulus[-1]) if modulus else None))
+            return out, full
+        ci_, fi = cells(Li, inc_fn)
+        cg_, fg = cells(Lg, get_fn)
+        okc = bool(ci_) and bool(cg_) and all(r_ and p_ for r_, p_, m_ in ci_ + cg_) and len({m_ for r_, p_, m_ in ci_ + cg_}) == 1
+        ctx.check(okc, "R14.5", "same-cells",
+                  "increment and estimate address the same cell in each row: the row element, position = (hash ^ that row's seed) % total_counters", Li.where(),
+                  "inc %s / est %s" % (ci_, cg_))
+        for L, full, label in ((Li, fi, "increment"), (Lg, fg, "estimate")):
+            ctx.check(full, "R14.5", "%s|all-rows|%s" % (L.fn.name, label), "%s visits every row (all elements of the row array, or every index 0..ROWS) with the key hash it was given" % label, L.where())
         # estimate = minimum starting from u8::MAX
-        cc = closure_captures(F, cg.name)
-        p = cc[0]
-        mn = cc[1].get("min")
+        p = Lg.fn
         r = p.origin_local(0)
-        st = cg.stores()
-        okm = mn == ("const", 255, "u8") and len(st) == 1 and strip_site(st[0][3]) == strip_site(cg.origin_call(bg, tg))
-        if okm:
-            g = [(b, tt) for b, expr, tt, ft in bool_branches(cg) if expr[0] == "binop" and expr[1] == "Lt" and strip_site(expr[2]) == strip_site(cg.origin_call(bg, tg)) and expr[3] == ("field", ("env",), "min")]
-            okm = len(g) == 1 and cg.edge_dominates(g[0], st[0][0]) and st[0][2] == ("field", ("env",), "min")
-        ctx.check(okm and r == ("const", 255, "u8"), "R14.5", "%s|minimum-from-max" % p.name,
-                  "the estimate is the minimum over the rows, folded from u8::MAX (count-min never under-counts a key's own increments)", p.where())
+        okm = False
+        if Lg.sink == "min":
+            res = Lg.extra["result"]
+            maps_get = all(len(q.calls({get_fn.name})) == 1 and strip_site(q.ret) == strip_site(q.calls({get_fn.name})[0].res) for q in Lg.bodies)
+            okm = maps_get and r[0] == "call" and r[1].endswith("Option::<T>::unwrap_or") and strip_site(r[2][0]) == strip_site(res) and r[2][1] == ("const", 255, "u8")
+        elif Lg.sink == "for_each":
+            clo = p.op_origin(p.term(Lg.bb)["args"][1])
+            cg = F.fn(clo[1]) if clo[0] == "agg" else None
+            if cg is not None:
+                gets = [(b_, t_) for b_, t_ in cg.calls() if t_.get("rpath") == get_fn.name]
+                cc = closure_captures(F, cg.name)
+                mn = cc[1].get("min") if cc else None
+                st = cg.stores()
+                if len(gets) == 1:
+                    bg, tg = gets[0]
+                    okm = mn == ("const", 255, "u8") and len(st) == 1 and strip_site(st[0][3]) == strip_site(cg.origin_call(bg, tg))
+                    if okm:
+                        g = [(b_, tt) for b_, expr, tt, ft in bool_branches(cg) if expr[0] == "binop" and expr[1] == "Lt" and strip_site(expr[2]) == strip_site(cg.origin_call(bg, tg)) and expr[3] == ("field", ("env",), "min")]
+                        okm = len(g) == 1 and cg.edge_dominates(g[0], st[0][0]) and st[0][2] == ("field", ("env",), "min")
+                    okm = okm and r == ("const", 255, "u8")
+        elif Lg.sink == "for":
+            # inline fold: some local is overwritten with the row's reading exactly under `reading < that local`, starts at
+            # u8::MAX and is what the function returns
+            folds = set()
+            okf = True
+            for q in Lg.bodies:
+                gs = q.calls({get_fn.name})
+                if len(gs) != 1:
+                    okf = False
+                    continue
+                for l_, v_ in q.env.items():
+                    if strip_site(v_) == strip_site(gs[0].res) and p.locals[l_]["ty"] == "u8" and l_ != gs[0].t["dest"]["l"]:
+                        cur = p.origin_local(l_)
+                        lt = [a for a in q.atoms if a[0] == "bool" and a[2] and a[1][0] == "binop" and a[1][1] == "Lt" and strip_site(a[1][2]) == strip_site(gs[0].res)]
+                        if lt and mentions(cur, lambda s_: s_ == ("const", 255, "u8")):
+                            folds.add(l_)
+            okm = okf and len(folds) == 1 and strip_site(r) == strip_site(p.origin_local(list(folds)[0]))
+        ctx.check(okm, "R14.5", "%s|minimum-from-max" % p.name,
+                  "the estimate is the minimum over the rows, folded from u8::MAX (count-min never under-counts a key's own increments)", p.where(), "sink=%s ret=%s" % (Lg.sink, fmt(r)[:100]))
     # ---- R14.6 / R14.7 TinyLFU table ---------------------------------------------------------------------
-    sk_inc = {closure_captures(F, c.name)[0].name for c, b, t in inc_sites} if inc_sites else set()
-    sk_est = {closure_captures(F, c.name)[0].name for c, b, t in get_sites} if get_sites else set()
+    sk_inc = {L.fn.name for L in inc_sites}
+    sk_est = {L.fn.name for L in get_sites}
     lfu = [f for n, f in F.fns.items() if f.kind != "Closure" and any(t.get("rpath") in sk_inc for b, t in f.calls())]
     ctx.floor("R14.6", "access-recording functions (doorkeeper then sketch)", len(lfu), 1)
     for f in lfu:
@@ -245,14 +299,16 @@ def run(ctx):
                 bad.append("access counter bumped %d times on a path" % len(bumps))
                 continue
             counter = bumps[0][2][2]
-            th = [x for x in atoms if x[0] == "bool" and x[1][0] == "binop" and x[1][1] == "Le" and x[1][3] == ("field", ("param", 1), counter)]
+            cnt = ("field", ("param", 1), counter)
+            th = [le_truth(x, lambda z: z[0] == "field" and z[1] == ("param", 1) and z[2] != counter, lambda z: z == cnt) for x in atoms]
+            th = [x for x in th if x is not None]
             if not th:
                 bad.append("threshold test counter >= reset_at missing")
                 continue
-            rows_seen.add((a[0][2], th[0][2]))
-            if th[0][2] != (len(rs) == 1):
+            rows_seen.add((a[0][2], th[0]))
+            if th[0] != (len(rs) == 1):
                 bad.append("reset must run iff the counter reached the threshold")
-            if th[0][2] and rs and p.index(rs[0][0]) < p.index(bumps[0][0]):
+            if th[0] and rs and p.index(rs[0][0]) < p.index(bumps[0][0]):
                 bad.append("reset before counting the access")
         ctx.check(not bad and len(rows_seen) == 4, "R14.6", "%s|doorkeeper-sketch-reset-table" % f.name,
                   "sketch incremented iff the doorkeeper already had the key; access counter += 1 on every path; counter >= threshold <=> reset (4 rows)", f.where(), "; ".join(sorted(set(bad))[:3]))
